@@ -267,6 +267,8 @@ def ev_unary(op, node, m):
     if op == 'parmap':
         i = node['fn']
         return m.clone(vals=[lift(lambda v: progs.f_wrap(i, v), v) for v in m.vals])
+    if op in ('boom', 'boomset', 'predraise') and m.unordered:
+        raise Invalid('raising elements in a random order have no sequential reference (not generated)')
     if op == 'boom':
         return m.clone(vals=[
             lift(lambda v: progs.boom_model(node['m'], node['r'], node['exc'], node['fn'], v), v) for v in m.vals])
